@@ -142,6 +142,31 @@ func genC17(ctx *Ctx) {
 			ctx.Input(sx.L(sx.List(ops), probes), true)
 		}
 	}
+	// long histories: 66 .. 130 registrations above and across U+00FF (single characters and small ranges, references and
+	// un-registrations by nil over an older covering range), probed at the registered characters
+	for rep := 0; rep < 6; rep++ {
+		n := 66 + rep*13
+		var ops []sx.SX
+		var pr sx.List
+		ops = append(ops, sx.L(sx.I(1), sx.I(1)))
+		if rep%2 == 1 {
+			ops = append(ops, sx.L(sx.I(0), sx.I(0x2000), sx.I(0x4000), sx.I(2)))
+		}
+		for i := 0; i < n; i++ {
+			c := int64(0x3000 + i*3)
+			if i%7 == 0 {
+				c = int64(0xF0 + i) // across the U+00FF boundary
+			}
+			w := int64(ctx.Rnd.Intn(3))
+			ops = append(ops, sx.L(sx.I(0), sx.I(c), sx.I(c+w), sx.I(int64([]int{0, 2, 3, 0, 1}[i%5]))))
+			if i%4 == 0 || i > n-4 {
+				pr = append(pr, sx.I(c), sx.I(c+w+1))
+			}
+		}
+		pr = append(pr, sx.I(0x2fff), sx.I(0xff), sx.I(0x100), sx.I(0xfffe))
+		ctx.Count("long-history")
+		ctx.Input(sx.L(sx.List(ops), pr), true)
+	}
 	// random histories, endpoints near the boundaries, including panicking ones (start > end, ranges above U+FFFE)
 	ends := []int64{0, 1, 'a', 'z', 0xFE, 0xFF, 0x100, 0x101, 0x1FFF, 0x2000, 0x2001, 0xFFFD, 0xFFFE, 0xFFFF}
 	for i := 0; i < ctx.N; i++ {
